@@ -58,6 +58,10 @@ def h_dest(ctx, mode, prefix, how):
                                  "fault_table": cancel_table(ctx)})
     fs = sc.rig.fs
     S = sc.S
+    if prefix in ("md", "md_fd") and ctx.choice("preexisting", 2):
+        # the destination file is already there (it is truncated at the Metadata PDU and is then the transaction's)
+        fs.add_plain_file(RESOLVED, ctx.int("old_len", 0, 64))
+        ctx.covered("preexisting_destination")
     for ev in DEST_PREFIXES[prefix]:
         if ev == "FD0":  # whole file in one PDU
             ctx.assume(S <= hdst.LMAX)
